@@ -93,7 +93,7 @@ def run(ctx, replay=None):
         check_program(ctx, prog, P.run_np(prog)[prog[-1]["out"]])
         return
     PC.probe_known(ctx, KNOWN)
-    N = ctx.scale(350, 3000)
+    N = ctx.scale(700, 4000)
     corr = []
     for i in range(N):
         prog, g = P.gen_program(rng, depth=rng.randint(2, ctx.scale(6, 9)), ops=OPS, avoid=("swv-consumer",), zero_axes=0.0)
@@ -107,7 +107,7 @@ def run(ctx, replay=None):
             ctx.sample({"program": prog})
         if i % 3 == 0:
             corr.append(prog)
-    for i in range(ctx.scale(200, 2500)):
+    for i in range(ctx.scale(500, 3000)):
         prog, g = P.gen_program(rng, depth=rng.randint(2, ctx.scale(6, 9)), ops=P.MINI_OPS, zero_axes=0.0, basic_only=True)
         corr.append(prog)
     block_correspondence(ctx, corr)
